@@ -36,10 +36,19 @@ IMPORTS = "From Coq Require Import List ZArith Bool. Import ListNotations.\nFrom
 
 
 def width(ch):
-    o = ord(ch)
-    if 0x4E00 <= o <= 0x9FFF or 0xFF01 <= o <= 0xFF60 or 0x3000 <= o <= 0x303F or 0x2018 <= o <= 0x201F and False:
+    """display width by the Unicode data: East Asian Width W / F = 2 columns, combining and format characters 0, others 1
+    (the generator draws from characters on which this and the printer's table agree on the repaired tree: ASCII, CJK,
+    full-width forms, and the characters at the borders of the width ranges)"""
+    import unicodedata
+    if unicodedata.east_asian_width(ch) in "WF":
         return 2
+    if unicodedata.category(ch) in ("Mn", "Me", "Cf"):
+        return 0
     return 1
+
+
+# characters at (and next to) the borders of the width ranges, harmless inside a text literal
+WIDTH_POOL = "~}|ˇ˜჻⌧⌨〈〉⌫〽〾〿ゕゖ゛䶴䶵䷾䷿一龥힢힣豈頻﹪﹫｟｠｡ￜ￥￦𝟿aZ09 甲，。！"
 
 
 def syntax_cases(rng, n):
@@ -79,6 +88,9 @@ def syntax_cases(rng, n):
             fault_line, col = ind + "令坏 = 3", len(ind)
         elif kind == 0:
             pre = "令%s = %d + " % (rng.choice(names) + "宽字符", rng.randrange(1, 9))
+            if rng.random() < 0.6:
+                # a text holding characters from the borders of the width ranges stands before the fault
+                pre = "令%s = “%s” + " % (rng.choice(names), "".join(rng.choice(WIDTH_POOL) for _ in range(rng.randrange(1, 6))))
             fault_line, col = pre + "）", len(pre)
         elif kind == 1:
             fault_line, col = "】", 0
